@@ -647,6 +647,23 @@ example : setItem 40 exTreeH ['/', '/', '[', 'l', 'a', 's', 't', '(', ')', '-', 
   (C03_hidden_root_refused .n0 _ (.lastMinus 1) [['x']] (.int 5) 40 (Or.inr (by decide))
     (by intro m hm; simp at hm; subst hm; exact pk_x) (by decide)).2
 
+/-- **C03 (index as a step of its own, refused).**  `old` at ANY plain position `P` (the value of a key or an element of
+a list) is not a list: `//…P…/[e]/tail…` with `e` denoting `≥ 2` or `< -1` raises `SyntaxError` and the tree is the tree
+before the call — as `name[e]` does (`C03_index_on_single_value`, case 3). -/
+theorem C03_index_own_step_refused (cls : Cls) (kvs : List (Str × Val)) (P : Pos) (old : Val) (e : IdxSp)
+    (tail : List Str) (v : Val) (fuel : Nat)
+    (hp : PlainPos P) (hP : getAt (.dict cls kvs) P = some old) (hs : isList old = false)
+    (he : e.val ≥ 2 ∨ e.val < -1) (ht : ∀ x ∈ tail, PlainKey x) (hf : fuel ≥ 2 * P.length + 1) :
+    setItem fuel (.dict cls kvs) (slash ++ renderPos P ++ slash ++ bracket e.text ++ renderPos (tail.map Seg.key)) v
+      = (.dict cls kvs, .error .SyntaxError) :=
+  setItem_hidden_own_step_refuse cls kvs P old e tail v fuel hp hP hs he ht hf
+
+/-- `d['//a/k/[last()-1]/x'] = 5` on `exTree2`: refused, nothing changes -/
+example : setItem 40 exTree2 ['/', '/', 'a', '/', 'k', '/', '[', 'l', 'a', 's', 't', '(', ')', '-', '1', ']', '/', 'x'] (.int 5)
+    = (exTree2, .error .SyntaxError) :=
+  C03_index_own_step_refused .n0 _ [.key ['a'], .key ['k']] (.str ['s']) (.lastMinus 1) [['x']] (.int 5) 40
+    ⟨pk_a, pk_k, trivial⟩ rfl rfl (Or.inr (by decide)) (by intro m hm; simp at hm; subst hm; exact pk_x) (by decide)
+
 /-- `d['//a/n/m'] = 5` through `C03_create_names` -/
 example : setItem 40 exTree2 ['/', '/', 'a', '/', 'n', '/', 'm'] (.int 5)
     = (.dict .n0 [(['a'], .dict .n0 [(['l'], .list .n0 [.int 1]), (['k'], .str ['s']),
